@@ -1249,7 +1249,6 @@ func ruleLDR15(c *Ctx) {
 	c.Check(len(bad) == 0, "LoadKnowledgeBaseFromReader / reaches no recursive function", p.Pos(entry.Pos()), fmt.Sprintf("%d module functions reachable, none on a call cycle", len(reach)), "recursive functions are reachable while a stream is loaded ("+strings.Join(bad, ", ")+"): on a well-formed stream whose ids close a cycle the recursion never ends and the stack overflow aborts the process")
 }
 
-
 // liveBlocks: blocks reachable from the entry when a branch on a constant condition follows only the edge that is taken.
 func liveBlocks(f *ssa.Function) map[*ssa.BasicBlock]bool {
 	live := map[*ssa.BasicBlock]bool{}
